@@ -18,6 +18,7 @@ import (
 	"sort"
 	"strconv"
 	"strings"
+	"sync"
 	"sync/atomic"
 	"testing"
 	"testing/synctest"
@@ -50,6 +51,8 @@ type vfSCase struct {
 	raw                   [][][]byte
 	evs                   []vfSEv
 	cp, rid               string
+	cancelAt              int         // µs (monitors only, latency cases): the run's context is cancelled at this virtual instant
+	reqT                  map[int]int // filled by vfRunSend: virtual µs at which request #i of the run reached the target
 }
 
 type vfSEv struct {
@@ -123,6 +126,9 @@ func (c *vfSCase) opLine(tag int, ks []int) string {
 	fmt.Fprintf(&sb, " init=%s", join(in))
 	if c.lat > 0 { // latency cases are never sent to the model; the token makes their replay files re-runnable
 		fmt.Fprintf(&sb, " lat=%d", c.lat)
+	}
+	if c.cancelAt > 0 {
+		fmt.Fprintf(&sb, " cancel=%d", c.cancelAt)
 	}
 	if len(c.oth) > 0 { // ignored by the model: records of other run ids must be invisible
 		fmt.Fprintf(&sb, " oth=%s", strings.Join(c.oth, ","))
@@ -223,17 +229,32 @@ func vfRunSend(t *testing.T, c *vfSCase, tg *vfdoubles.Target, startDb int, star
 			ro.checkpointInMem = checkpoint.CheckpointInfo{Key: c.cp, RunId: c.rid, Offset: start, Version: config.Version}
 		}
 		var latOff atomic.Bool
-		if c.lat > 0 {
-			lat := time.Duration(c.lat) * time.Microsecond
-			tg.Hook = func(int, vfdoubles.LogEntry) {
-				if !latOff.Load() {
-					time.Sleep(lat)
-				}
+		t0 := time.Now()
+		var tmu sync.Mutex
+		c.reqT = map[int]int{}
+		lat := time.Duration(c.lat) * time.Microsecond
+		tg.Hook = func(idx int, _ vfdoubles.LogEntry) {
+			tmu.Lock()
+			c.reqT[idx-nSeed] = int(time.Since(t0) / time.Microsecond)
+			tmu.Unlock()
+			if lat > 0 && !latOff.Load() {
+				time.Sleep(lat)
 			}
-			defer func() { tg.Hook = nil }()
 		}
+		defer func() { tg.Hook = nil }()
 		ctx, cancel := context.WithCancel(context.Background())
 		defer cancel()
+		if c.cancelAt > 0 {
+			stopCancel := make(chan struct{})
+			defer close(stopCancel)
+			go func() {
+				select {
+				case <-time.After(time.Duration(c.cancelAt) * time.Microsecond):
+					cancel()
+				case <-stopCancel:
+				}
+			}()
+		}
 		pr, pw := io.Pipe()
 		done := make(chan error, 1)
 		go func() {
@@ -737,6 +758,11 @@ func vfGenCase(r *vfutil.Rand, idx int) *vfSCase {
 	if r.Chance(3, 4) && c.sdb < 0 {
 		c.raw = append(c.raw, [][]byte{[]byte("SELECT"), []byte(strconv.Itoa(dbNum()))})
 	}
+	if c.sdb > 0 && r.Chance(1, 4) && n > 0 {
+		// a resumed run whose first item is a MULTI: the initial `select <startDbId>` is still queued when
+		// the barrier arrives (cov_startdb_first_item_multi)
+		c.raw = append(c.raw, [][]byte{[]byte("MULTI")}, data(), [][]byte{[]byte("EXEC")})
+	}
 	noRoute := make([]string, 0, len(vfNoRoute))
 	for k := range vfNoRoute {
 		noRoute = append(noRoute, k)
@@ -780,6 +806,14 @@ func vfGenCase(r *vfutil.Rand, idx int) *vfSCase {
 				}
 			}
 			c.raw = append(c.raw, [][]byte{[]byte(nm), []byte("chan"), []byte("m")})
+		case 7:
+			if r.Chance(1, 4) {
+				// an EXEC with no open MULTI (what a run resumed inside a transaction reads first; here in
+				// any mode and anywhere): a barrier that flushes what is queued and is itself absorbed
+				c.raw = append(c.raw, [][]byte{[]byte("EXEC")})
+			} else {
+				c.raw = append(c.raw, data())
+			}
 		default:
 			c.raw = append(c.raw, data())
 		}
@@ -828,6 +862,42 @@ func vfGenCase(r *vfutil.Rand, idx int) *vfSCase {
 	}
 	t += vfutil.Pick(r, []int{1000, 1000, 4000000, 15000000}) + 1000
 	c.evs = append(c.evs, vfSEv{t: t, close: true})
+	// the source connection is lost EARLY: the stream ends after m commands -- preferably between a MULTI
+	// and its EXEC -- and the run ends gracefully there (the Done case with an open source transaction:
+	// nothing of it may be sent, the position stays before it); the restarts read the whole stream
+	if r.Chance(1, 6) && len(c.raw) > 1 {
+		m := r.Range(0, len(c.raw)-1)
+		var inside []int
+		open := false
+		for i, cmd := range c.raw {
+			switch strings.ToLower(string(cmd[0])) {
+			case "multi":
+				open = true
+			case "exec":
+				open = false
+			}
+			if open {
+				inside = append(inside, i+1)
+			}
+		}
+		if len(inside) > 0 && r.Chance(2, 3) {
+			m = vfutil.Pick(r, inside)
+		}
+		var evs []vfSEv
+		done, last := 0, 500
+		for _, e := range c.evs {
+			if e.close || done >= m {
+				break
+			}
+			if done+e.n > m {
+				e.n = m - done
+			}
+			evs = append(evs, e)
+			done += e.n
+			last = e.t
+		}
+		c.evs = append(evs, vfSEv{t: last + vfutil.Pick(r, []int{1000, 4000000, 15000000}) + 1000, close: true})
+	}
 	return c
 }
 
@@ -837,6 +907,190 @@ func vfStreamOf(raw [][][]byte) (stream []byte, ends []int) {
 		ends = append(ends, len(stream))
 	}
 	return
+}
+
+
+// vfCoverage: which branches of the loop model (Model/Sender.lean `step`, `tail`, `preFlush`, `sendOnce`)
+// and of the parser model (`parseStep`) this case exercised on the REAL run, told from the instant every
+// request reached the target (tickers fire at multiples of their periods, writes at the instants of the
+// schedule; all pairwise distinct) and from the case itself. Printed into the evidence as the input
+// distribution; the generator is steered so that none of them stays at zero in the quick tier.
+func vfCoverage(s *vfutil.Session, c *vfSCase, log []vfdoubles.LogEntry) {
+	closeT := -1
+	for _, e := range c.evs {
+		if e.close {
+			closeT = e.t
+		}
+	}
+	type batch struct {
+		t                  int
+		data, cp, ping, mu int
+		bytes              int
+		meta               bool
+		db                 int
+	}
+	var bs []batch
+	for i, e := range log {
+		t, ok := c.reqT[i]
+		if !ok {
+			return
+		}
+		if len(bs) == 0 || bs[len(bs)-1].t != t {
+			bs = append(bs, batch{t: t})
+		}
+		b := &bs[len(bs)-1]
+		switch cmd := e.Cmd(); {
+		case cmd == "multi":
+			b.mu++
+		case cmd == "exec":
+		case cmd == "ping":
+			b.ping++
+		case cmd == "hset" && len(e.Args) > 1 && string(e.Args[1]) == c.cp:
+			b.cp++
+			if len(e.Args) > 4 {
+				b.meta = true
+			}
+			b.db = e.DB
+		default:
+			b.data++
+			for _, a := range e.Args {
+				b.bytes += len(a)
+			}
+		}
+	}
+	metaDbs := map[int]bool{}
+	for bi, b := range bs {
+		if b.meta {
+			metaDbs[b.db] = true
+			if len(metaDbs) == 2 {
+				s.Count("cov_cp_runid_fields_in_second_db")
+			}
+		} else if b.cp > 0 {
+			s.Count("cov_cp_without_runid_fields")
+		}
+		if bi == 0 && b.ping > 0 && b.data == 0 && b.cp == 0 && c.resume {
+			s.Count("cov_keepalive_before_first_item_no_position") // D4: nothing consumed yet, no position written
+		}
+		if c.perK > 0 && b.t%c.perK != 0 && (c.perB == 0 || b.t%c.perB != 0) && b.t != closeT && (c.txn || c.perC == 0 || b.t%c.perC != 0) && b.data > 0 {
+			switch {
+			case uint(b.data) >= c.bc:
+				s.Count(fmt.Sprintf("cov_itemflush_batch_count_txn%v", c.txn))
+			case uint64(b.bytes) >= c.bb:
+				s.Count(fmt.Sprintf("cov_itemflush_byte_limit_txn%v", c.txn))
+			default:
+				s.Count(fmt.Sprintf("cov_itemflush_barrier_or_exec_txn%v", c.txn))
+			}
+		}
+		kind := "item"
+		switch {
+		case b.t == closeT:
+			kind = "done"
+		case c.perK > 0 && b.t%c.perK == 0:
+			kind = "keepalive"
+		case c.perB > 0 && b.t%c.perB == 0:
+			kind = "batchtick"
+		case !c.txn && c.perC > 0 && b.t%c.perC == 0:
+			kind = "cptick"
+		}
+		what := "empty"
+		switch {
+		case b.ping > 0 && b.data == 0:
+			what = "ping"
+		case b.data > 0:
+			what = "data"
+		}
+		s.Count(fmt.Sprintf("cov_flush_%s_%s_txn%v", kind, what, c.txn))
+	}
+	// case-level branches
+	_, _, _, grpAfter := vfExpected(c, c.sdb, c.start, c.raw)
+	exp, _, _, _ := vfExpected(c, c.sdb, c.start, c.raw)
+	grpN, grpB := map[int]int{}, map[int]int{}
+	for _, e := range exp {
+		if e.grp != 0 {
+			grpN[e.grp]++
+			for _, a := range e.args {
+				grpB[e.grp] += len(a)
+			}
+		}
+	}
+	if c.txn {
+		for g, n := range grpN {
+			if uint(n) >= c.bc {
+				s.Count("cov_txn_group_reaches_batch_count")
+			}
+			if uint64(grpB[g]) >= c.bb {
+				s.Count("cov_txn_group_reaches_byte_limit")
+			}
+		}
+	}
+	bypass := false
+	inTx := false
+	for i, cmd := range c.raw {
+		name := strings.ToLower(string(cmd[0]))
+		switch name {
+		case "select":
+			if len(cmd) == 2 {
+				if n, err := strconv.Atoi(string(cmd[1])); err == nil {
+					bypass = false
+					for _, d := range c.fdb {
+						if d == n {
+							bypass = true
+						}
+					}
+					if _, mapped := c.dbMap[n]; !mapped && len(c.dbMap) > 0 && c.tdb == -1 && !bypass {
+						s.Count("cov_select_unmapped_db_with_dbmap")
+					}
+					if inTx {
+						s.Count("cov_select_inside_txn")
+					}
+				}
+			}
+		case "multi":
+			inTx = true
+			if bypass {
+				s.Count("cov_multi_in_filtered_db")
+			}
+			if i == 0 && c.sdb > 0 {
+				s.Count("cov_startdb_first_item_multi")
+			}
+			if i+1 < len(c.raw) && strings.ToLower(string(c.raw[i+1][0])) == "exec" {
+				s.Count("cov_empty_txn")
+			}
+		case "exec":
+			if !inTx {
+				s.Count("cov_exec_without_multi")
+			}
+			inTx = false
+			if bypass {
+				s.Count("cov_exec_in_filtered_db")
+			}
+			if i < len(grpAfter) && i > 0 && grpAfter[i-1] != 0 && grpN[grpAfter[i-1]] == 0 {
+				s.Count("cov_txn_forwards_nothing")
+			}
+		}
+	}
+	written := 0
+	for _, e := range c.evs {
+		written += e.n
+	}
+	if written < len(c.raw) {
+		s.Count("cov_stream_ends_early")
+		if written > 0 && written-1 < len(grpAfter) && grpAfter[written-1] != 0 {
+			s.Count("cov_stream_ends_inside_txn")
+		}
+	}
+	if c.tdb != -1 && len(c.dbMap) > 0 {
+		s.Count("cov_targetdb_and_dbmap")
+	}
+	if c.txn && !c.resume {
+		for range grpN {
+			s.Count("cov_txn_block_without_position")
+			break
+		}
+	}
+	if c.sdb > 0 {
+		s.Count("cov_startdb_positive")
+	}
 }
 
 // ---------------------------------------------------------------- the test
@@ -850,7 +1104,7 @@ func vfSenderCase(t *testing.T, s *vfutil.Session, r *vfutil.Rand, c *vfSCase, t
 	var ks []int
 	if !c.resume {
 		// in-memory checkpoint only: nothing is read back from the target
-	} else if vfutil.Thorough() || len(log) <= 12 {
+	} else if (vfutil.Thorough() && src != "exit") || len(log) <= 12 {
 		for k := 0; k <= len(log); k++ {
 			ks = append(ks, k)
 		}
@@ -914,6 +1168,9 @@ func vfSenderCase(t *testing.T, s *vfutil.Session, r *vfutil.Rand, c *vfSCase, t
 	if len(log) > 0 {
 		s.Distinct(strings.Join(impl, "|"))
 	}
+	if c.lat == 0 && src == "gen" {
+		vfCoverage(s, c, log)
+	}
 
 	// ------------------------------------------------------------ monitors
 	startDb := c.sdb
@@ -964,6 +1221,19 @@ func vfSenderCase(t *testing.T, s *vfutil.Session, r *vfutil.Rand, c *vfSCase, t
 		if a.db != exp[i].db {
 			s.Violate("C01:wrong-db", fmt.Sprintf("#%d executed %s expected in db %d", i, vfFmtCmd(a.db, a.args), exp[i].db), replay(map[string]interface{}{"index": i}))
 			break
+		}
+	}
+	if src == "exit" {
+		s.Count("exit_runs")
+		if len(dataApp) < len(exp) {
+			s.Count("exit_left_with_unexecuted") // the loop returned without having sent everything the stream held
+		} else {
+			s.Count("exit_left_all_executed")
+		}
+		if c.cancelAt > 0 {
+			s.Count("exit_by_cancel")
+		} else {
+			s.Count("exit_by_eof_in_flight")
 		}
 	}
 	// what was received but not executed when the run ended must not be covered by the position the
@@ -1089,10 +1359,18 @@ func vfSenderCase(t *testing.T, s *vfutil.Session, r *vfutil.Rand, c *vfSCase, t
 		if src != "gen" {
 			nRes = len(sps)
 		}
+		if src == "exit" {
+			// the way the loop LEFT is the subject: restart from the end of the run
+			// (Props.C01 leave_then_resume on the real code)
+			nRes = 1
+		}
 		for i := 0; i < nRes; i++ {
 			sp := sps[r.Intn(len(sps))]
 			if src != "gen" {
 				sp = sps[i]
+			}
+			if src == "exit" {
+				sp = sps[len(sps)-1]
 			}
 			pre := append(append([]vfdoubles.LogEntry{}, seedLog...), log[:sp.k]...)
 			tk := vfdoubles.ReplayWith(pre, 0, true)
@@ -1317,6 +1595,33 @@ func TestVerifSender(t *testing.T) {
 			cl.lat = vfutil.Pick(r, []int{1000, 40000, 1100000, 3100000})
 			vfSenderCase(t, s, r, &cl, tag, "lat")
 		}
+		if r.Chance(1, 5) && len(c.raw) > 0 {
+			// HOW THE LOOP LEAVES (Model/SenderExit.lean, Props/C01Exit.lean): the whole stream arrives in one
+			// or two bursts and replayWait is closed -- end of the stream right behind the last burst, or the
+			// run's context cancelled at a random instant -- while the target takes time per request: items
+			// are still in sendBuf and tickers due when the loop comes back from a flush and finds
+			// replayWait closed, or the Done case competes with them in the select. Whichever case wins, the
+			// loop returns after it, without the final flush unless it was Done. Judged by the monitors
+			// (what is not executed is not covered by the position; the real restart from the end of the
+			// run completes the stream).
+			ce := *c
+			ce.lat = vfutil.Pick(r, []int{1000, 40000, 400000, 1100000})
+			n := len(ce.raw)
+			n1 := r.Range(1, n)
+			ce.evs = []vfSEv{{t: 1500, n: n1}}
+			tEnd := 1500
+			if n1 < n {
+				tEnd = 1500 + r.Range(1, 30)*ce.lat/3
+				ce.evs = append(ce.evs, vfSEv{t: tEnd, n: n - n1})
+			}
+			if r.Bool() {
+				ce.evs = append(ce.evs, vfSEv{t: tEnd + vfutil.Pick(r, []int{1, 700, ce.lat, 3*ce.lat + 11}), close: true})
+			} else {
+				ce.evs = append(ce.evs, vfSEv{t: tEnd + 40000000, close: true})
+				ce.cancelAt = 1500 + r.Range(0, 3*n+6)*ce.lat + r.Range(1, 997)
+			}
+			vfSenderCase(t, s, r, &ce, tag, "exit")
+		}
 		tag++
 	}
 }
@@ -1374,6 +1679,7 @@ func vfParseCase(op string) *vfSCase {
 	}
 	c.oth = list(kv["oth"], ",")
 	c.lat = atoi(kv["lat"])
+	c.cancelAt = atoi(kv["cancel"])
 	for _, cmd := range list(kv["raw"], ";") {
 		var args [][]byte
 		for _, a := range strings.Split(cmd, ".") {
